@@ -317,8 +317,14 @@ def run(chk: common.Check):
         c = (ox + 9.0 * k, oy, oz)
         lig.append(f"HETATM{9100 + 2 * k:>5d}  C1  MX{k} L{301 + k:>4d}    {c[0]:8.3f}{c[1]:8.3f}{c[2]:8.3f}  1.00  0.00           C")
         lig.append(f"HETATM{9101 + 2 * k:>5d} {nm:<4s} MX{k} L{301 + k:>4d}    {c[0] + dv[0]:8.3f}{c[1] + dv[1]:8.3f}{c[2] + dv[2]:8.3f}  1.00  0.00          {el:>2s}")
+    # ... and of hybridisations without a construction of their own: propyne (sp carbons, C#C 1.18 A) and hydrogen cyanide
+    c = (ox, oy + 9.0, oz)
+    for k, (nm, el, dx) in enumerate((("C1", "C", 0.0), ("C2", "C", 1.46), ("C3", "C", 2.64))):
+        lig.append(f"HETATM{9120 + k:>5d}  {nm:<3s} PYN L 311    {c[0] + dx:8.3f}{c[1]:8.3f}{c[2]:8.3f}  1.00  0.00           {el}")
+    for k, (nm, el, dx) in enumerate((("C1", "C", 0.0), ("N1", "N", 1.16))):
+        lig.append(f"HETATM{9130 + k:>5d}  {nm:<3s} HCN L 312    {c[0] + 9.0 + dx * 0.6:8.3f}{c[1] + dx * 0.8:8.3f}{c[2]:8.3f}  1.00  0.00           {el}")
     t_lig = "\n".join(l for l in structures.read("sample-issue-140.pdb").splitlines() if l[:3] != "END") + "\n" + "\n".join(lig) + "\nEND\n"
-    study("sample-issue-140 + ligands with Se / P / Si", t_lig, [], 1)
+    study("sample-issue-140 + ligands with Se / P / Si, propyne, HCN", t_lig, [], 1)
     t2 = structures.read("1HPX.pdb")
     study("1HPX (ligand KNI)", t2, [], 2 if chk.thorough else 1, axis_bonds=one_neighbour_bonds(t2, True, 3 if chk.thorough else 1))
     if chk.thorough:
